@@ -82,6 +82,9 @@ func RemoteExists(ctx context.Context, client *http.Client, u *url.URL) (*url.UR
 		// Try the alternative URL
 		resp, err = client.Do(req)
 		if err != nil {
+			if ctx.Err() != nil {
+				return nil, fmt.Errorf("checking remote file: %w", ctx.Err())
+			}
 			if notSecure := (&errors.TaskfileNotSecureError{}); errors.As(err, &notSecure) {
 				return nil, notSecure
 			}
